@@ -8,7 +8,6 @@ from dataclasses import dataclass
 from dataclasses import field
 from typing import TYPE_CHECKING
 from typing import Iterable
-from typing import Optional
 from typing import Union
 
 from .ast import BlockNode
@@ -148,7 +147,7 @@ def analyze(template: BoundTemplate, *, include_partials: bool) -> TemplateAnaly
     # visited a template before but ith different arguments, later visits
     # only record global variables so as not to double count locals, filters
     # and tags.
-    seen: defaultdict[str, set[Optional[int]]] = defaultdict(set)
+    seen: defaultdict[str, set[object]] = defaultdict(set)
 
     def _visit(
         node: Node,
@@ -205,12 +204,16 @@ def analyze(template: BoundTemplate, *, include_partials: bool) -> TemplateAnaly
             # If we've seen this partial before but with different arguments,
             # we might want to visit it again but only capture globals.
             _just_globals = partial_name in seen
-            if partial.key in seen[partial_name]:
+            visible = set(partial.in_scope)
+            if partial.scope != PartialScope.ISOLATED:
+                visible.update(*root_scope.stack)
+            partial_key = (partial.key, frozenset(visible))
+            if partial_key in seen[partial_name]:
                 # We've visited this partial template before with the same
-                # arguments.
+                # arguments and the same names in scope.
                 return
 
-            seen[partial_name].add(partial.key)
+            seen[partial_name].add(partial_key)
             partial_name = partial_name or template_name
 
             partial_scope = (
@@ -272,7 +275,7 @@ async def analyze_async(
     static_context = RenderContext(template)
 
     # Names of partial templates that have already been analyzed.
-    seen: defaultdict[str, set[Optional[int]]] = defaultdict(set)
+    seen: defaultdict[str, set[object]] = defaultdict(set)
 
     async def _visit(
         node: Node,
@@ -329,12 +332,16 @@ async def analyze_async(
             # If we've seen this partial before but with different arguments,
             # we might want to visit it again but only capture globals.
             _just_globals = partial_name in seen
-            if partial.key in seen[partial_name]:
+            visible = set(partial.in_scope)
+            if partial.scope != PartialScope.ISOLATED:
+                visible.update(*root_scope.stack)
+            partial_key = (partial.key, frozenset(visible))
+            if partial_key in seen[partial_name]:
                 # We've visited this partial template before with the same
-                # arguments.
+                # arguments and the same names in scope.
                 return
 
-            seen[partial_name].add(partial.key)
+            seen[partial_name].add(partial_key)
             partial_name = partial_name or template_name
 
             partial_scope = (
